@@ -421,7 +421,8 @@ pub fn exec(sc: &Sc) -> Outcome {
 
 pub fn scenarios(tier: Tier) -> Vec<Sc> {
     let thorough = tier >= Tier::Thorough;
-    let mut codes: Vec<u64> = vec![0, 1, 63, 64, 16383, 16384, (1 << 30) - 1, 1 << 30, rc::VARINT_MAX, 0x170d7b68];
+    // boundaries of every varint length, and code points the protocols themselves reserve (an application may use them too)
+    let mut codes: Vec<u64> = vec![0, 1, 63, 64, 16383, 16384, (1 << 30) - 1, 1 << 30, rc::VARINT_MAX, 0x170d7b68, 0x100, 0x10c, 0x3994bd84, 0x52e4a40fa8db];
     if tier >= Tier::Deep {
         // every power of two and its predecessor in the 62-bit range, the registered HTTP/3 and WebTransport codes
         for k in 1..62u32 {
@@ -447,7 +448,7 @@ pub fn scenarios(tier: Tier) -> Vec<Sc> {
                 }
             }
             if phase < 3 {
-                for &c in if thorough { &codes[..] } else { &codes[phase as usize * 3..phase as usize * 3 + 3] } {
+                for &c in if thorough { &codes[..] } else { &codes[phase as usize * 4..phase as usize * 4 + 4] } {
                     out.push(Sc { topo: 0, raw_is_client: true, client_opens: co, bidi: bi, reverse: rev, signal: Signal::FinishCancelStop(c), phase, k: 700 });
                 }
             }
